@@ -160,10 +160,15 @@ def execute(ctx):
         P.sim_sleep(1.5)
 
     verdict = sim.run(scenario)
-    if verdict[0] in ('deadlock', 'timeout'):
+    if verdict[0] in ('deadlock', 'timeout', 'livelock'):
         from simkit.harness import hang_signature
         sg, msg = hang_signature(verdict)
-        ctx.violation('5', sg, msg, verdict[1])
+        if verdict[0] == 'livelock':
+            # attributed to the attempt in progress, so that it carries that attempt's history tags
+            si = sum(1 for e in hist if e[2] == 'session') - 1
+            ctx.pending.append((max(si, 0), '5', sg, msg, verdict[1]))
+        else:
+            ctx.violation('5', sg, msg, verdict[1])
     for name, exc, tb in sim.thread_deaths:
         ctx.violation('5', 'thread-died %s @%s' % (exc.split(':')[0], cflib_site(tb)),
                       'library thread %s died: %s' % (name, exc), tb)
@@ -465,7 +470,7 @@ def check_history(ctx, hist, plan):
             tainted = True
             n0 = mark
             for v in ctx.violations[n0:]:
-                if not v['sig'].startswith(('C02/5 thread-died', 'C02/5 deadlock', 'C02/5 hang', 'C02/5 api-raised')):
+                if not v['sig'].startswith(('C02/5 thread-died', 'C02/5 deadlock', 'C02/5 hang ', 'C02/5 api-raised')):
                     v['msg'] = '%s: %s' % (v['sig'], v['msg'])
                     v['sig'] = 'C02/race raced-attempt%s' % (tag,)
     for (si, clause, sig, msg, detail) in ctx.pending:
